@@ -1,26 +1,235 @@
 /-
-C03 — property theorems (first instalment; grown theorem by theorem).
+C03 — property theorems.  "Votes escalate and blocks commit only on a counted quorum; commits always verify."
+
+The theorems quantify over ALL histories `ops : List Op` (context changes, received votes of every status and
+malformation, environment changes) run from the initial Voter by `run init ops`; `events ops` are the events emitted by
+each delivery.  `Out.over c kind chamber B count T members` is the model's record of judgeVoteCount seeing a quorum
+(ghost: it snapshots who is counted at that moment); `Entry.vrf` says the credential of a counted vote passes the strict
+check the header verifier repeats.
 -/
-import YouVerif.C03.Model
+import YouVerif.C03.ProofsRun
+import YouVerif.C03.ProofsQuorum
 namespace YouVerif.C03
 
-def vmsg (vt : VT) (h p s w : Nat) : Op :=
-  .vote { vt := vt, ctx := ⟨32768, 1⟩, h := h, p := p, sender := s, votes := w, status := .same, T := 10 }
+/-- the events of every delivery of a history -/
+def events (ops : List Op) : List (List Out) := (run init ops).2.map (·.1)
 
-/-- F-C03a witness: certificate round, precommit quorum (3+3 ≥ 6) latched, sender 1 equivocates (its weight 3 is
-    removed), certificate quorum (5 ≥ 5) arrives → commit packs precommits of weight 3 < 6. -/
+/-- a history in which every vote and the own sortition report the uniform thresholds (T for prevote/precommit/next,
+    Tc for certificate votes) and no credential is accepted through verifySortition's old-round leniency -/
+def Uniform (T Tc : Nat) (ops : List Op) : Prop := ∀ op ∈ ops, OpOK T Tc true op
+
+theorem opOK_false (op : Op) : OpOK 0 0 false op := by
+  cases op with
+  | vote m => intro h; cases h
+  | envSel vt s => cases s with
+    | none => trivial
+    | some sv => intro h; cases h
+  | _ => trivial
+
+theorem mem_events {ops : List Op} {outs : List Out} (h : outs ∈ events ops) : ∃ x ∈ (run init ops).2, x.1 = outs := by
+  simpa [events] using h
+
+/-- **precommit_justified.** An own precommit for block `B` in context `c` is emitted only in a delivery in which
+    judgeVoteCount saw the chamber prevotes for exactly `B` in `c` reach the quorum of the threshold in play: the count is
+    the uint32 sum of the weights of the counted members, who are pairwise distinct senders. -/
+theorem precommit_justified (ops : List Op) :
+    ∀ outs ∈ events ops, ∀ c B p w, Out.signed .precommit c B p w ∈ outs →
+      ∃ count T mem, Out.over c .prevote true B count T mem ∈ outs ∧
+        quorum T true ≤ count ∧ count = sumVotes mem % U32 ∧ count ≤ sumVotes mem ∧ (mem.map (·.addr)).Nodup := by
+  intro outs houts c B p w hs
+  obtain ⟨x, hx, rfl⟩ := mem_events houts
+  have hr := (run_res (T := 0) (Tc := 0) (strict := false) ops init Inv.init (fun op _ => opOK_false op)).2 x hx
+  obtain ⟨count, T, mem, hov⟩ := hr.2 c B p w hs
+  obtain ⟨ctx, _, hq, _, hrest⟩ := hr.1 _ hov
+  obtain ⟨h1, h2, _⟩ := hrest (by intro hh; cases hh)
+  have hb : (VT.prevote != VT.cert) = true := by decide
+  rw [hb] at hq
+  refine ⟨count, T, mem, hov, ?_, h1, ?_, h2⟩
+  · simpa [overThreshold] using hq
+  · rw [h1]; exact Nat.mod_le _ _
+
+/-- … and in a uniform, leniency-free history the threshold is the protocol's and every counted prevoter's credential
+    is verified. -/
+theorem precommit_justified_verified (T Tc : Nat) (ops : List Op) (hU : Uniform T Tc ops) :
+    ∀ outs ∈ events ops, ∀ c B p w, Out.signed .precommit c B p w ∈ outs →
+      ∃ count mem, Out.over c .prevote true B count T mem ∈ outs ∧ quorum T true ≤ count ∧
+        count = sumVotes mem % U32 ∧ (mem.map (·.addr)).Nodup ∧ ∀ e ∈ mem, e.vrf = true := by
+  intro outs houts c B p w hs
+  obtain ⟨x, hx, rfl⟩ := mem_events houts
+  have hr := (run_res (T := T) (Tc := Tc) (strict := true) ops init Inv.init hU).2 x hx
+  obtain ⟨count, T', mem, hov⟩ := hr.2 c B p w hs
+  obtain ⟨ctx, _, hq, hT, hrest⟩ := hr.1 _ hov
+  obtain ⟨h1, h2, h3⟩ := hrest (by intro hh; cases hh)
+  have hb : (VT.prevote != VT.cert) = true := by decide
+  rw [hb] at hq
+  have hT' : T' = T := by rw [hT rfl]; simp [thr]
+  subst hT'
+  exact ⟨count, mem, hov, by simpa [overThreshold] using hq, h1, h2, h3 rfl⟩
+
+/-- **commit_justified.** A commit of `B` is announced only in a delivery at whose moment the packed chamber precommits
+    for `B` (pairwise distinct senders) reach the quorum of the threshold latched for them, and — in a certificate
+    context — the packed certificate votes reach theirs. -/
+theorem commit_justified (ops : List Op) :
+    ∀ outs ∈ events ops, ∀ c B cert pc hpc certs, Out.commit c B cert pc hpc certs ∈ outs →
+      ∃ Tp Tq, quorum Tp true ≤ sumVotes pc % U32 ∧ (pc.map (·.addr)).Nodup ∧
+        (cert = true → quorum Tq false ≤ sumVotes certs % U32 ∧ (certs.map (·.addr)).Nodup) := by
+  intro outs houts c B cert pc hpc certs hs
+  obtain ⟨x, hx, rfl⟩ := mem_events houts
+  have hr := (run_res (T := 0) (Tc := 0) (strict := false) ops init Inv.init (fun op _ => opOK_false op)).2 x hx
+  obtain ⟨ctx, _, Tp, Tq, _, h1, h2, _, h3⟩ := hr.1 _ hs
+  exact ⟨Tp, Tq, h1, h2, fun hc => ⟨(h3 hc).1, (h3 hc).2.1⟩⟩
+
+/-- the header verifier's count of a set of pairwise distinct, strictly credentialed votes is the uint32 sum of their weights -/
+theorem verifierCount_eq : ∀ (es : List Entry) (seen : List Addr) (cnt : Nat), cnt < U32 →
+    (∀ e ∈ es, e.vrf = true) → (es.map (·.addr)).Nodup → (∀ e ∈ es, e.addr ∉ seen) →
+    verifierCount seen cnt es = (cnt + sumVotes es) % U32
+  | [], seen, cnt, hc, _, _, _ => by simp [verifierCount, sumVotes, Nat.mod_eq_of_lt hc]
+  | e :: l, seen, cnt, hc, hv, hnd, hs => by
+    have h1 : seen.contains e.addr = false := by
+      have := hs e (List.mem_cons_self ..)
+      simpa using this
+    have h2 : e.vrf = true := hv e (List.mem_cons_self ..)
+    simp only [List.map_cons, List.nodup_cons] at hnd
+    have ih := verifierCount_eq l (e.addr :: seen) ((cnt + e.votes) % U32) (Nat.mod_lt _ (by decide))
+      (fun x hx => hv x (List.mem_cons_of_mem _ hx)) hnd.2 (by
+        intro x hx hmem
+        simp only [List.mem_cons] at hmem
+        rcases hmem with hmem | hmem
+        · exact hnd.1 (hmem ▸ List.mem_map_of_mem hx)
+        · exact hs x (List.mem_cons_of_mem _ hx) hmem)
+    simp only [verifierCount, h1, h2, Bool.not_true, Bool.false_eq_true, if_false, ih, sumVotes]
+    simp only [U32]; omega
+
+/-- **commit_verifies** (of the repaired code): in a uniform, leniency-free history the vote sets attached to every
+    commit pass the header verifier's counts — precommits against the 0.685 quorum of `T`, and in a certificate
+    context the certificate votes against the 0.585 quorum of `Tc`. -/
+theorem commit_verifies (T Tc : Nat) (ops : List Op) (hU : Uniform T Tc ops) :
+    ∀ outs ∈ events ops, ∀ c B cert pc hpc certs, Out.commit c B cert pc hpc certs ∈ outs →
+      headerAccepted T Tc cert pc certs = true := by
+  intro outs houts c B cert pc hpc certs hs
+  obtain ⟨x, hx, rfl⟩ := mem_events houts
+  have hr := (run_res (T := T) (Tc := Tc) (strict := true) ops init Inv.init hU).2 x hx
+  obtain ⟨ctx, _, Tp, Tq, hT, h1, h2, h3, h4⟩ := hr.1 _ hs
+  obtain ⟨rfl, rfl⟩ := hT rfl
+  have hz : (0 : Nat) < U32 := by decide
+  have e1 := verifierCount_eq pc [] 0 hz (h3 rfl) h2 (by intro e _ hm; cases hm)
+  simp only [Nat.zero_add] at e1
+  simp only [headerAccepted, acceptVotes, overThreshold, e1, Bool.and_eq_true, decide_eq_true_eq, Bool.or_eq_true,
+    Bool.not_eq_true']
+  refine ⟨h1, ?_⟩
+  cases cert with
+  | false => exact Or.inl rfl
+  | true =>
+    right
+    obtain ⟨h5, h6, h7⟩ := h4 rfl
+    have e2 := verifierCount_eq certs [] 0 hz (h7 rfl) h6 (by intro e _ hm; cases hm)
+    simp only [Nat.zero_add] at e2
+    rw [e2]; exact h5
+
+/-- **double_voter_weightless.** In every reachable state, in every VoteSta of every ring slot, a sender marked as a
+    double voter is a member of no hash's vote set: it contributes no weight (and `count = Σ members` by `counts_are_sums`). -/
+theorem double_voter_weightless (ops : List Op) :
+    ∀ cw ∈ (run init ops).1.ws, ∀ (ch : Bool) (vt : VT) (a : Addr) (h0 : Hash),
+      (cw.2.sta ch vt).addrs a = some (h0, true) → ∀ h e, e ∈ (cw.2.sta ch vt).info h → e.addr ≠ a := by
+  intro cw hcw ch vt a h0 hd
+  have hI := (run_res (T := 0) (Tc := 0) (strict := false) ops init Inv.init (fun op _ => opOK_false op)).1
+  exact (hI.sta cw hcw ch vt).double_weightless hd
+
+/-- every stored count is the uint32 sum of the weights of that hash's members, who are distinct senders each recorded
+    with that hash as their first, un-equivocated vote -/
+theorem counts_are_sums (ops : List Op) :
+    ∀ cw ∈ (run init ops).1.ws, ∀ (ch : Bool) (vt : VT), StaInv (cw.2.sta ch vt) :=
+  fun cw hcw ch vt =>
+    ((run_res (T := 0) (Tc := 0) (strict := false) ops init Inv.init (fun op _ => opOK_false op)).1).sta cw hcw ch vt
+
+/-- the marking step: a counted sender (first vote `h0`, not yet marked) whose vote for a different hash reaches
+    addrVoteInfo (kind ≠ next-index) is marked and removed from every vote set of that VoteSta … -/
+theorem second_vote_marks {s : VoteSta} (hs : StaInv s) {a : Addr} {h h0 : Hash}
+    (h1 : s.addrs a = some (h0, false)) (hne : h0 ≠ h) :
+    (s.addrVoteInfo false a h).1.addrs a = some (h0, true) ∧
+    ∀ h' e, e ∈ (s.addrVoteInfo false a h).1.info h' → e.addr ≠ a :=
+  ⟨(addrVoteInfo_different hs h1 hne).2.1, (addrVoteInfo_different hs h1 hne).2.2⟩
+
+/-- … and the mark is permanent while the VoteSta lives. -/
+theorem double_mark_persists {s : VoteSta} {a b : Addr} {h h0 : Hash} {w : Nat} {vrf isNext : Bool}
+    (hd : s.addrs a = some (h0, true)) :
+    (s.newVote b h w vrf).1.addrs a = some (h0, true) ∧ (s.addrVoteInfo isNext b h).1.addrs a = some (h0, true) :=
+  ⟨newVote_keeps_double hd, addrVoteInfo_keeps_double hd⟩
+
+/-- **quorum_float_exact.** `uint32(float64(T) * 0.685)` is exactly ⌊685·T/1000⌋ for every 32-bit threshold; the 0.585
+    quorum is that floor or one less (and one less does occur: `quorum585_off_by_one`). The rounding function of the model
+    is a correct round-to-nearest (`rne53_upper`, `rne53_lower'` in ProofsQuorum). -/
+theorem quorum_float_exact (T : Nat) (hT : T < 2 ^ 32) :
+    quorum T true = 685 * T / 1000 ∧ 585 * T / 1000 - 1 ≤ quorum T false ∧ quorum T false ≤ 585 * T / 1000 :=
+  ⟨quorum685_exact T hT, quorum585_bounds T hT⟩
+
+/-- verifySortition forgives a failed credential check exactly when the vote is older than the Server's context … -/
+theorem lenient_iff_server_ahead (srv m : Ctx) :
+    verifySortition srv m false = true ↔ m.round < srv.round ∨ m.index < srv.index := by
+  simp [verifySortition]
+
+/-- … so a Server in the Voter's own context is strict about votes of that context. -/
+theorem synced_is_strict (c : Ctx) (ok : Bool) : verifySortition c c ok = ok := by
+  simp [verifySortition]
+
+/-! ### witnesses -/
+
+def vmsg (vt : VT) (h p s w : Nat) (cred : Cred := .valid) : Op :=
+  .vote { vt := vt, ctx := ⟨32768, 1⟩, h := h, p := p, sender := s, votes := w, status := .same, T := 10, cred := cred }
+
+def commitsOf (l : List (List Out)) : List (Bool × List Entry × List Entry) :=
+  l.flatMap fun o => o.filterMap fun
+    | .commit _ _ cert pc _ certs => some (cert, pc, certs)
+    | _ => none
+
+/-- F-C03a shape: certificate context, precommit quorum (3+3 ≥ 6) latched, sender 1 equivocates (its weight leaves),
+    certificate quorum (5 ≥ 5) arrives. -/
 def latchWitness : List Op :=
   [.context ⟨32768, 1⟩ 4 true, vmsg .precommit 1 11 1 3, vmsg .precommit 1 11 2 3, vmsg .precommit 2 12 1 3,
    vmsg .cert 1 11 2 5]
 
-def commitsOf (l : List (List Out × Ret)) : List (Bool × List Entry × List Entry) :=
-  l.flatMap fun (o, _) => o.filterMap fun
-    | .commit _ _ cert pc _ certs => some (cert, pc, certs)
-    | _ => none
+/-- the repaired Voter does not commit on the F-C03a history (test on a literal) … -/
+theorem latch_no_commit : commitsOf (events latchWitness) = [] := by decide
 
-/-- On the model of the code as it is, a commit can carry a vote set the header verifier rejects. -/
-theorem latch_no_commit :
-    commitsOf (run init latchWitness).2 = [] := by
+/-- … whereas the commit of the code before the repair (no re-check of the packed sets) packed precommits of weight 3,
+    which the verifier's count rejects (quorum 6): the legacy commit evaluated in the state the history reaches. -/
+theorem latch_legacy_commit_rejected :
+    let v := (run init latchWitness).1
+    v.over 1 true .precommit = true ∧ v.over 1 true .cert = true ∧
+    headerAccepted 10 10 true (votesOf v.ws v.ctx true .precommit 1) (votesOf v.ws v.ctx true .cert 1) = false := by
   decide
+
+/-- F-C03b: with a credential accepted through the leniency (sender 2 claims weight 6, strict check fails) the commit's
+    vote set is rejected by the verifier's count: `commit_verifies` needs the `Uniform` hypothesis. -/
+def lenientWitness : List Op :=
+  [.context ⟨32768, 1⟩ 4 false, vmsg .precommit 1 11 1 3, vmsg .precommit 1 11 2 6 .lenient]
+
+theorem commit_verifies_lenient_counterexample :
+    (commitsOf (events lenientWitness)).map (fun (c, pc, ce) => headerAccepted 10 10 c pc ce) = [false] := by
+  decide
+
+/-- non-vacuity: a uniform history with a prevote quorum, an own precommit, a precommit quorum and a commit -/
+def honestWitness : List Op :=
+  [.envSel .precommit (some ⟨1, .chamber, 10⟩), .context ⟨7, 1⟩ 2 false,
+   .vote { vt := .prevote, ctx := ⟨7, 1⟩, h := 1, p := 11, sender := 1, votes := 3, status := .same, T := 10 },
+   .vote { vt := .prevote, ctx := ⟨7, 1⟩, h := 1, p := 11, sender := 2, votes := 3, status := .same, T := 10 },
+   .vote { vt := .precommit, ctx := ⟨7, 1⟩, h := 1, p := 11, sender := 1, votes := 3, status := .same, T := 10 },
+   .vote { vt := .precommit, ctx := ⟨7, 1⟩, h := 1, p := 11, sender := 2, votes := 2, status := .same, T := 10 }]
+
+example : Uniform 10 10 honestWitness := by
+  intro op hop
+  simp only [honestWitness, List.mem_cons, List.not_mem_nil, or_false] at hop
+  rcases hop with rfl | rfl | rfl | rfl | rfl | rfl <;> simp [OpOK, thr]
+
+example : (events honestWitness).any (fun o => o.any fun
+    | .signed .precommit _ 1 _ _ => true
+    | _ => false) = true := by decide
+
+example : (commitsOf (events honestWitness)).map (fun (c, pc, ce) => headerAccepted 10 10 c pc ce) = [true] := by decide
+
+example : Uniform 10 10 latchWitness := by
+  intro op hop
+  simp only [latchWitness, List.mem_cons, List.not_mem_nil, or_false] at hop
+  rcases hop with rfl | rfl | rfl | rfl | rfl <;> simp [OpOK, thr, vmsg]
 
 end YouVerif.C03
